@@ -1143,6 +1143,17 @@ class Machine(object):
                     return finish(Ref(nv.fields[0], True))
                 if isinstance(ov, AdtVal) and ov.variant == 1:
                     return finish(Ref(self.field_cell(ov, 0, None, None), True))
+        if d == "std::option::Option::<T>::take":
+            # the old value moves out, the place becomes None
+            tgt = args[0]
+            if isinstance(tgt, Ref):
+                ov = tgt.cell.val
+                if ov is not None:
+                    nv = AdtVal("std::option::Option", 0, {}, None, "None")
+                    if tgt.cell.name is not None:
+                        st.effects.append(("assign", tgt.cell.name, lab(nv), loc(t)))
+                    tgt.cell.val = nv
+                    return finish(ov)
         if d == "std::option::Option::<T>::unwrap_or":
             ov = deref_val(args[0])
             if isinstance(ov, AdtVal) and ov.variant == 0:
